@@ -14,6 +14,7 @@ from .core import (SV, Bag, State, Obligation, Unsupported, Val, VNone, VInt, VB
                    is_VNone, is_VInt, is_VBool, is_VRef, is_VIv, ival, bval, ref, SetSort, EmptySet,
                    fresh, sv_int, sv_bool, sv_none, sv_ref, sv_val, sv_str, sv_tuple, sv_set, to_val, Int, Bool)
 from .extract import strip_docstring
+from ast import unparse as ast_unparse
 from .symex import Exc
 
 
@@ -337,6 +338,10 @@ class Contract:
                     raise Unsupported("contract %s: no spec for parameter %s" % (self.target, n))
             a[n] = self.make_value(eng, st, n, spec)
         st.env = dict(a)
+        for n, spec in (getattr(self, "closure", None) or {}).items():
+            # free variables of a nested function: symbolic values of the enclosing scope
+            a[n] = self.make_value(eng, st, n, spec)
+            st.env[n] = a[n]
         for pname in self.inout:
             v0 = a[pname]
             st.env[pname] = SV(v0.k, v0.t, cls=v0.cls, x=v0.x,
@@ -366,7 +371,22 @@ class Contract:
             outs = [(st, ("return", val))] + [(s, ("raise", e)) for (s, e) in eng.exc_paths]
             eng.exc_paths = []
         else:
-            outs = eng.exec_stmts(strip_docstring(fi.node.body), st)
+            stmts = strip_docstring(fi.node.body)
+            prefix_mode = False
+            if getattr(self, "prefix_until", None) is not None:
+                # guard contract: only the statements before the first one matching prefix_until are executed; what is
+                # verified is that the guard conditions (raises) are checked before anything else happens.  The rest
+                # of the body is not under this contract.
+                for i_, s_ in enumerate(stmts):
+                    if self.prefix_until(ast_unparse(s_)):
+                        stmts = stmts[:i_]
+                        prefix_mode = True
+                        break
+                else:
+                    raise Unsupported("guard contract %s: no statement matches prefix_until" % self.target)
+            outs = eng.exec_stmts(stmts, st)
+            if prefix_mode:
+                outs = [(s_, c_ if (c_ is not None and c_[0] == "raise") else ("prefix-end", None)) for (s_, c_) in outs]
         n_paths = 0
         exc_spec = self.raises(c0, a)
         may_spec = self.may_raise(c0, a)
@@ -393,6 +413,15 @@ class Contract:
                         a[pname + "__out"] = s.env.get(pname, a[pname])
                 for name, f in self.on_raise(c0, c1, a, e).items():
                     obls.append(Obligation("onraise.%s/%s" % (name, tag), s.assumptions(), f, info={"path": s.trace}))
+                continue
+            if ctrl is not None and ctrl[0] == "prefix-end":
+                # end of the verified prefix: none of the guard conditions may hold here
+                for en, cond in exc_spec.items():
+                    obls.append(Obligation("guard.%s.checked_first/%s" % (en, tag), s.assumptions(), z3.Not(cond),
+                                           info={"path": s.trace}))
+                c1 = Ctx(eng, dict(s.heap))
+                for name, f in self.frame_obligations(eng, c0, c1, a).items():
+                    obls.append(Obligation("guard.no_effect_before.%s/%s" % (name, tag), s.assumptions(), f, info={"path": s.trace}))
                 continue
             res = ctrl[1] if ctrl else sv_none()
             if isinstance(self.result, str) and self.result.startswith("ref:") and res.k in ("val", "none"):
